@@ -220,6 +220,54 @@ def _own_namespace(repo, rep, pa):
               "attributes that share an expanded name (lang / xml:lang on an "
               "element without a namespace) still know theirs",
               construct="origin-aligned", where=L.where(ua))
+    # an unprefixed 'xmlns' attribute is a namespace declaration whatever
+    # namespace the element has: on every path of the loop body that takes an
+    # attribute name without a colon, the name 'xmlns' is told apart and
+    # recorded in the xmlns namespace -- prepare_attributes drops a
+    # declaration by that field (attribute['namespace'] == XMLNS_NS)
+    if len(loops) == 1 and rec is not None:
+        nsvar = src(rec.value)
+        xmlns_c = None
+        try:
+            xmlns_c = repo.module("chameleon.namespaces").const("XMLNS_NS")
+        except (NotConst, KeyError, AttributeError):
+            pass
+        n_paths = 0
+        bad = []
+        for path in P.enum_paths(loops[0].body, unroll=1):
+            conds = [(src(ev[1]), ev[2]) for ev in path if ev[0] == "cond"]
+            if any(ev[0] == "raise" for ev in path):
+                continue
+            if L.cond_holds(conds, "':' in name", True):
+                continue
+            n_paths += 1
+            val = None
+            for ev in path:
+                if ev[0] == "assign" and ev[1] == nsvar:
+                    val = ev[2]
+                if ev[0] == "assign" and ev[1] == src(rec.targets[0]):
+                    break
+            vt = src(val) if val is not None else None
+            is_x = vt is not None and (
+                vt.endswith("XMLNS_NS") or
+                (isinstance(val, ast.Constant) and val.value == xmlns_c))
+            if L.cond_holds(conds, "name == 'xmlns'", True):
+                if not is_x:
+                    bad.append("xmlns recorded as %s" % vt)
+            elif L.cond_holds(conds, "name == 'xmlns'", False):
+                if is_x:
+                    bad.append("another name recorded as xmlns")
+            else:
+                bad.append("unprefixed names not told apart (recorded as %s)"
+                           % vt)
+        rep.check(n_paths >= 2 and not bad, "R18.1", ua.qualname,
+                  "an unprefixed xmlns attribute is recorded in the xmlns "
+                  "namespace on any element (a default declaration of a "
+                  "template language on <x:div xmlns:x=... xmlns=TAL> is "
+                  "dropped like any other declaration of it)",
+                  construct="default-declaration-resolved",
+                  where=L.where(ua), detail="; ".join(bad) or
+                  "%d unprefixed paths" % n_paths)
     # nobody else writes that field
     writers = []
     for q, fn in sorted(repo.funcs.items()):
